@@ -10,6 +10,28 @@ import (
 
 func reader_scan_collection(r *Decoder, ectx evaluationContext, r0 cursorio.DecodedRune, openSubject rdf.SubjectValue, openSubjectRange *cursorio.TextOffsetRange) (readerStack, error) {
 	if r0.Rune == ')' {
+		if ectx.CurSubject == nil {
+			// an empty collection in subject position is rdf:nil itself; it becomes the subject of the pending
+			// predicateObjectList instead of the blank node reserved for the first list cell
+			closeRange := r.commitForTextOffsetRange(r0.AsDecodedRunes())
+
+			var nilRange *cursorio.TextOffsetRange
+
+			if openSubjectRange != nil && closeRange != nil {
+				nilRange = &cursorio.TextOffsetRange{
+					From:  openSubjectRange.From,
+					Until: closeRange.Until,
+				}
+			}
+
+			for i := len(r.stack) - 1; i >= 0 && r.stack[i].ectx.CurSubject == openSubject; i-- {
+				r.stack[i].ectx.CurSubject = rdfiri.Nil_List
+				r.stack[i].ectx.CurSubjectLocation = nilRange
+			}
+
+			return readerStack{}, nil
+		}
+
 		return r.emit(statement{
 			quad: rdf.Quad{
 				Triple: rdf.Triple{
